@@ -486,11 +486,17 @@ func (o *ObjectSchema) applySubObjectDefaultValues(propertyID string, property *
 			// The declared default is not an object; unserializing the property reports that as an error.
 			return
 		}
-		data = declaredMap
+		// The declared default is the map cached in o.defaultValues, shared by every call: work on a copy.
+		for k, v := range declaredMap {
+			data[k] = v
+		}
 	}
 	subObjectDefaults := subObject.GetDefaults()
 	for k, v := range subObjectDefaults {
-		data[k] = v
+		// The sub-object's defaults fill in what the declared default leaves out; they do not replace it.
+		if _, declared := data[k]; !declared {
+			data[k] = v
+		}
 	}
 	for subPropertyID, subProperty := range subObject.Properties() {
 		o.applySubObjectDefaultValues(subPropertyID, subProperty, data)
